@@ -308,6 +308,50 @@ pub fn c01(ctx: &mut Ctx) {
         }
     }
 
+    // ---- M1(h'): the same far beyond the sizes above -------------------------------------------
+    // operands around 2^20, 2^22 and 2^24 bytes with a multi-byte character across the power of two
+    // (a cap on an echoed operand), and numeric literals with up to 70 000 digits (a digit counter)
+    if !ctx.small {
+        let far_sizes: &[usize] = if ctx.thorough() && ctx.scale >= 1.0 { &[1 << 20, 1 << 22, 1 << 24] } else { &[1 << 20] };
+        for (si, size) in far_sizes.iter().enumerate() {
+            for k in 0..9usize {
+                idx += 1;
+                if !ctx.mine(idx) {
+                    continue;
+                }
+                // 9-byte groups: with k = 0..8 leading ASCII bytes every alignment of the group occurs at the power of two
+                let body: String = std::iter::repeat("😀日é").take(size / 9 + 8).collect();
+                let s = format!("{}{}", "a".repeat(k), body);
+                let data = json!({"s": s, "a": [s]});
+                let few = ["+", "*", "-", "/", "%", "max", "min", "<", "==", "===", "cat", "substr", "in", "merge", "!", "var", "missing", "if", "and", "log", "map", "reduce"];
+                for op in ops.iter() {
+                    if si > 0 && !few.contains(op) {
+                        continue;
+                    }
+                    for vname in ["s", "a"] {
+                        let v = json!({ "var": vname });
+                        for rule in [json!({ *op: [v] }), json!({ *op: [v, 1] }), json!({ *op: [1, v] }), json!({ *op: [v, 1, 1] })] {
+                            total(ctx, "c01.apply", ["error-echo:1MiB", "error-echo:4MiB", "error-echo:16MiB"][si], &rule, &data);
+                        }
+                    }
+                }
+            }
+        }
+        for (di, n) in crate::props_far::DIGITS.iter().enumerate() {
+            idx += 1;
+            if !ctx.mine(idx) || (ctx.scale < 1.0 && di % 2 == 1) {
+                continue;
+            }
+            for s in [format!("0x{}", "f".repeat(*n)), format!("0x{}1", "0".repeat(*n)), format!("0o{}", "7".repeat(*n)), format!("0b{}", "1".repeat(*n)), format!("1{}", "0".repeat(*n)), format!("0.{}1", "0".repeat(*n)), format!("{}e{}", "9".repeat(*n), n), format!("1e-{}", "9".repeat(n / 100)), format!("{}1", " ".repeat(*n))] {
+                let sv = json!(s);
+                helper1(ctx, &sv);
+                for rule in [json!({"+": [sv]}), json!({"*": [sv, 2]}), json!({"==": [sv, 1]}), json!({"<": [sv, 1]}), json!({"<": [1, sv, 2]}), json!({"max": [sv]}), json!({"-": [sv]}), json!({"%": [sv, 7]}), json!({"substr": ["abc", sv]}), json!({"var": sv}), json!({"missing_some": [sv, ["a"]]})] {
+                    total(ctx, "c01.apply", "far-digits", &rule, &Value::Null);
+                }
+            }
+        }
+    }
+
     // ---- M1(b): random trees -------------------------------------------------------------
     let n = ctx.budget(20_000, 3_000_000);
     let mut g = RuleGen::new();
